@@ -81,6 +81,12 @@ func fatConfigs(tier string) []fatCfg {
 		{Kind: "fat32", Size: 34 * MiB, Start: 0, Names: "short"},
 		// FAT32 with 65.5k clusters already taken: every further allocation gets a cluster number >= 65536
 		{Kind: "fat32", Size: 34 * MiB, Start: 4096, Names: "plain", Preload: 65540 * 512},
+		// the next free cluster sits just below an entry on a FAT sector boundary (FAT12: entry 341 straddles
+		// bytes 511/512 of the FAT; FAT16: entry 256 opens the second FAT sector; FAT32: entry 128)
+		{Kind: "fat12", Size: 1474560, Start: 0, Names: "plain", PreloadClusters: 337},
+		{Kind: "fat12", Size: 1474560, Start: 512, Names: "short", PreloadClusters: 339},
+		{Kind: "fat16", Size: 5 * MiB, Start: 0, Names: "plain", PreloadClusters: 252},
+		{Kind: "fat32", Size: 34 * MiB, Start: 0, Names: "plain", PreloadClusters: 124},
 	}
 	if tier == "thorough" {
 		cfgs = append(cfgs,
@@ -89,6 +95,11 @@ func fatConfigs(tier string) []fatCfg {
 			fatCfg{Kind: "fat16", Size: 32 * MiB, Start: MiB, Names: "tricky"},
 			fatCfg{Kind: "fat32", Size: 51200 + 512*7, Start: 5<<30 + 512, Names: "tricky"},
 			fatCfg{Kind: "fat32", Size: 300 * MiB, Start: 0, Names: "plain"},
+			fatCfg{Kind: "fat12", Size: 1474560, Start: MiB, Names: "tricky", PreloadClusters: 680},
+			fatCfg{Kind: "fat12", Size: 1474560, Start: 0, Names: "plain", PreloadClusters: 338},
+			fatCfg{Kind: "fat12", Size: 1474560, Start: 0, Names: "plain", PreloadClusters: 340},
+			fatCfg{Kind: "fat16", Size: 5 * MiB, Start: MiB, Names: "tricky", PreloadClusters: 509},
+			fatCfg{Kind: "fat32", Size: 34 * MiB, Start: MiB, Names: "tricky", PreloadClusters: 253},
 		)
 	}
 	return cfgs
@@ -121,7 +132,7 @@ func fatJobs(c *core.Ctx, pl *fatPlan) []fatJob {
 			if hasFill && cfg.Size > 64*1024 {
 				continue // Fill is only meaningful (and affordable) where the volume is tiny
 			}
-			if cfg.Preload > 0 {
+			if cfg.Preload > 1<<20 {
 				// expensive configuration: a few of the long walks only
 				maxPre := 8
 				if c.Tier == "thorough" {
